@@ -162,6 +162,34 @@ def _run_archived(args):
         shutil.rmtree(tmp, ignore_errors=True)
 
 
+def _run_rename(args):
+    """A mechanical renaming (sa/renames.py) of the tree under analysis: cannot change behaviour, so nothing new may be reported.
+    Non-silence is recorded as a note (it says something about the analysis, not about the property) and does not fail the run."""
+    pid, modname, kind, key, base_keys = args
+    import importlib
+    from . import renames
+    mod = importlib.import_module(modname)
+    name = "rename/%s:%s" % (kind, key)
+    tmp = tempfile.mkdtemp(prefix="ssepy_ren_")
+    try:
+        copy_tree(tmp)
+        try:
+            n = renames.apply(tmp, kind, key)
+        except Exception as e:
+            return (name, "skipped", "renaming not applicable here (%s)" % type(e).__name__, [])
+        if not n:
+            return (name, "skipped", "nothing to rename", [])
+        code, rules, viols, out = core.run_property(pid, mod, root=tmp, quiet=True, write_evidence=False)
+        if code == 2:
+            return (name, "note", "analysis error on a renamed tree: " + "; ".join(out)[:200], [])
+        new = [f.key for r in rules for f in r.findings if f.key not in base_keys]
+        if new:
+            return (name, "note", "renamed tree reported: %s" % new[:2], new)
+        return (name, "ok", "silent", [])
+    finally:
+        shutil.rmtree(tmp, ignore_errors=True)
+
+
 def run(pid, mod, seed=0, verbose=True):
     variants = getattr(mod, "VARIANTS", None)
     if not variants:
@@ -174,10 +202,20 @@ def run(pid, mod, seed=0, verbose=True):
     jobs = [(pid, mod.__name__, i, base_keys) for i in range(len(variants))]
     arch = [e for e in archive_entries() if e["kind"] == "benign" or (e["kind"] == "seed" and e.get("property") == pid and e.get("own", True))]
     ajobs = [(pid, mod.__name__, e, base_keys) for e in arch]
-    with multiprocessing.Pool(min(16, len(jobs) + len(ajobs))) as pool:
+    rjobs = []
+    if not base_keys:
+        try:
+            from . import renames
+            rjobs = [(pid, mod.__name__, kind, key, base_keys) for kind, key in renames.variants(REPO)]
+        except Exception:
+            rjobs = []
+    with multiprocessing.Pool(min(16, len(jobs) + len(ajobs) + len(rjobs))) as pool:
         results = pool.map(_run_variant, jobs)
         aresults = pool.map(_run_archived, ajobs) if ajobs else []
+        rresults = pool.map(_run_rename, rjobs, chunksize=4) if rjobs else []
     results = list(results) + list(aresults)
+    r_ok = sum(1 for r in rresults if r[1] == "ok")
+    r_notes = [r for r in rresults if r[1] == "note"]
     bad = 0
     quiet_ok = 0
     for name, status, msg, new in results:
@@ -189,6 +227,11 @@ def run(pid, mod, seed=0, verbose=True):
             bad += 1
     if verbose and quiet_ok:
         print("  selftest %d archived behaviour-preserving patches: silent" % quiet_ok)
+    if verbose and rresults:
+        print("  selftest %d mechanical renamings (locals / parameters / private functions / instance attributes): %d silent, %d not" % (
+            len([r for r in rresults if r[1] != "skipped"]), r_ok, len(r_notes)))
+        for name, status, msg, new in r_notes[:10]:
+            print("  selftest-note %-40s %s" % (name, msg[:160]))
     # extend the evidence file written by the quick part
     evp = os.path.join(core.VERIF, "evidence", "%s.json" % pid)
     try:
@@ -198,6 +241,8 @@ def run(pid, mod, seed=0, verbose=True):
         ev["coverage"]["selftest"] = [{"variant": n, "status": s, "detail": m} for n, s, m, _ in results]
         ev["coverage"]["selftest_variants"] = len(results)
         ev["coverage"]["selftest_failed"] = bad
+        ev["coverage"]["renaming_variants"] = {"run": len([r for r in rresults if r[1] != "skipped"]), "silent": r_ok,
+                                               "not_silent": [{"variant": n, "detail": m} for n, s_, m, _ in r_notes]}
         ev["wall_s"] = round(ev.get("wall_s", 0) + time.time() - t0, 3)
         with open(evp, "w") as f:
             json.dump(ev, f, indent=1, default=str)
